@@ -211,7 +211,7 @@ var summaryBytes = map[string]Summary{
 	},
 	// func (b *Buffer) WriteTo(w io.Writer) (n int64, err error)
 	"(*bytes.Buffer).WriteTo": {
-		[][]int{{0}, {0, 1}},
+		[][]int{{0, 1}, {1}},
 		[][]int{{0}, {0}},
 	},
 	// func (r *Reader) Seek(offset int64, whence int) (int64, error)
@@ -478,7 +478,7 @@ var summaryIo = map[string]Summary{
 	},
 	// func CopyBuffer(dst Writer, src Reader, buf []byte) (written int64, err error)
 	"io.CopyBuffer": {
-		[][]int{{0}, {1, 2}, {0, 2}},
+		[][]int{{0}, {0, 1, 2}, {0, 2}},
 		[][]int{{0}, {0}, {0}},
 	},
 	// func CopyN(dst Writer, src Reader, n int64) (written int64, err error)
@@ -988,7 +988,7 @@ var summaryStrings = map[string]Summary{
 	// func Join(elems []string, sep string) string {
 	"strings.Join": {
 		[][]int{{0}, {1}},
-		[][]int{{0}, {1}},
+		[][]int{{0}, {0}},
 	},
 	// func LastIndex(s string, substr string) int
 	"strings.LastIndex": {
